@@ -327,7 +327,9 @@ def _r5(ctx):
         ctx.broken("R5: expected one address accumulator, found %s" % sorted(names))
     acc = names.pop()
     init = [a for a in C.assigns_to(loop, acc) if isinstance(a, ast.Assign)]
-    ctx.check(len(init) == 1 and C.const_num(init[0].value) == 0 and init[0] in loop.body, "R5",
+    cfg5 = C.cfg_of(f)
+    ctx.check(len(init) == 1 and C.const_num(init[0].value) == 0 and C.enclosing_loop(init[0]) is loop
+              and all(cfg5.dominates(init[0], a_) for a_ in accs), "R5",
               "accumulator reset per candidate", f.where(loop), "the address difference is not reset to 0 for "
               "every candidate operand", f.qname, "accumulator reset")
     # collect signed terms with their change variables resolved
@@ -365,11 +367,13 @@ def _r5(ctx):
               "is_memload returns True other than under `%s == 0`" % acc, f.qname, "return True guard")
     # skips
     def skip_if(test_texts, what):
-        for n in ast.walk(loop):
-            if isinstance(n, ast.If) and U(n.test) in test_texts and any(isinstance(s, ast.Continue) for s in n.body):
-                ctx.node_ok("R5", f, n, what)
-                return True
-        ctx.bad("R5", what, f.where(loop), "missing: %s (one of %s -> continue)" % (what, sorted(test_texts)),
+        # when the condition holds the candidate can no longer be answered True in this iteration (guard clause with
+        # continue, or the rest of the body nested under its negation)
+        n = C.cond_blocks(f, loop, test_texts, trues[0]) if trues else None
+        if n is not None:
+            ctx.node_ok("R5", f, n, what)
+            return True
+        ctx.bad("R5", what, f.where(loop), "missing: %s (one of %s must keep the candidate from being accepted)" % (what, sorted(test_texts)),
                 f.qname, what)
         return False
     skip_if({"%s.scale != %s.scale" % (mem, src), "%s.scale != %s.scale" % (src, mem)}, "different scales skip the candidate")
